@@ -299,7 +299,9 @@ class Pipeline:
         self.table = Table(self.grammar)
         self.gen_mod = src.mod("codegen/python/python_generator.py")
         self.gen_cls = self.gen_mod.get_class("PythonCodeGen")
+        self.token_value_src = {}
         A.TOKEN_LANGUAGE["fn"] = self.token_may_be
+        A.TOKEN_ENDS_EQUAL["fn"] = self.token_ends_equal
         self.token_kinds = self._token_kinds()
         first = self.grammar.by_name(self.grammar.start)[0].syms[0] if self.grammar.by_name(self.grammar.start) else None
         cands = [pr.syms[1] for pr in self.grammar.by_name(first) if len(pr.syms) == 2 and pr.syms[1] in self.grammar.terminals] if first else []
@@ -367,9 +369,33 @@ class Pipeline:
             if isinstance(res, A.TokenVal):
                 v = res.attrs.get("value")
                 kinds[r.name] = ("value", v.kind if isinstance(v, A.Sym) else type(v).__name__)
+                if isinstance(v, A.Sym) and len(reses) == 1:
+                    self.token_value_src[r.name] = v.src        # e.g. "STRING_LITERAL[1:-1]": which piece of the text the value is
             else:
                 kinds[r.name] = ("dropped", None)
         return kinds
+
+    def token_ends_equal(self, ttype: str) -> bool:
+        """Every alternative of the token's pattern begins and ends with one and the same literal character (quoted strings)."""
+        import re._parser as P
+        import re._constants as C
+        r = self.main_lexer.rule(ttype.split(".")[0].split("[")[0])
+        if r is None or r.pattern is None:
+            return False
+        try:
+            tree = P.parse(r.pattern)
+        except Exception:  # noqa: BLE001
+            return False
+        while len(tree) == 1 and tree[0][0] is C.SUBPATTERN:
+            tree = tree[0][1][3]           # a group around the whole pattern (sly wraps composed patterns)
+        alts = [tree]
+        if len(tree) == 1 and tree[0][0] is C.BRANCH:
+            alts = tree[0][1][1]
+        for alt in alts:
+            items = list(alt)
+            if len(items) < 2 or items[0][0] is not C.LITERAL or items[-1][0] is not C.LITERAL or items[0][1] != items[-1][1]:
+                return False
+        return True
 
     def token_may_be(self, ttype: str, text: str):
         """Can the matched text of token `ttype` be `text`?  (None: unknown token.)"""
@@ -440,6 +466,10 @@ class Pipeline:
                 if b_ == "choice":
                     return vals[0]
             p = A.PVal(prod.syms, vals, prod.aliases)
+            # sly sets parser.production to the rule being reduced before it calls the action
+            parser_obj.attrs["production"] = A.Opaque("production", attrs={
+                "prod": A.AList([A.Tmpl.lit(s_) for s_ in prod.syms], "tuple"), "name": A.Tmpl.lit(prod.name),
+                "len": len(prod.syms), "namemap": A.Opaque("namemap")})
             return interp.call(A.FuncVal(self.grammar.mod, prod.func, parser_obj), [p], {})
         return ev(tree)
 
